@@ -2528,6 +2528,9 @@ class Interp:
                     s2.panic_info = v[1]
                     succs.append(s2)
                     continue
+                if isinstance(v, EnumV) and v.variant is not None and (t.get('callee') or {}).get('def', '').endswith('::next'):
+                    # rules that look at one loop iteration ask whether the driving iterator had run out on this path
+                    s2.tags['last_next'] = 'some' if v.variant == 1 else 'none'
                 self.write_place(s2, f2, t['dest'], v)
                 self.jump(s2, f2, t['target'])
                 succs.append(s2)
